@@ -1,5 +1,11 @@
 """C15, C16, C18 — Ask replies, reentrant requests, dead letters (group askreentr).
 
+C18  specs/DeadLetter/Drops.tla: the four drop causes (full non-blocking bounded mailbox, Unhandled(), inbound remote
+     tell for a missing / stopped actor, failed outbound batch) and the dead-letter actor's counters. Every operation history
+     of length D (TLC BFS, sampled) and TLC random walks are executed on a REAL actor system with remoting enabled on loopback
+     (dl-replay; remote sources enter through deliverRemoteTellMessage / enqueueCoalescedFailure shims); concurrent senders
+     of every kind run freely against small mailboxes (dl-stress). Dead letters are observed by an event-stream subscriber.
+     Mon_Drops.tla = verdict (per-id accounting, carried sender/receiver, counts), Trace_Drops.tla = conformance.
 C15  specs/Ask/AskPool.tla: PID.Ask / Ask / handleRemoteAsk, ReceiveContext.build / Response, the ReceiveContext and
      reply-channel pools and the mailbox's sentinel recycling at verifhook granularity.
      spec->code: edge-cover walks of the bounded state graph, TLC random walks of a larger configuration and the TLC
@@ -21,6 +27,8 @@ ASK_DEFECTS = ["CloseAfterReply", "CloseOnTimeout", "PoolOnTimeout", "NoCasGuard
 def run(ctx, pid):
     if pid == "C15":
         return run_c15(ctx)
+    if pid == "C18":
+        return run_c18(ctx)
     raise vlib.Infra("property %s not implemented yet in group askreentr" % pid)
 
 
@@ -195,6 +203,95 @@ def run_c15(ctx):
         tot["drift"] += rs.get("drift", 0)
         tot["events"] += nl
         ctx.log("%s: %d executions, %d steps, drift %d, %d events, %d mismatches" % (label, rs["behaviours"], rs.get("steps", 0), rs.get("drift", 0), nl, len(mm)))
+        if mm:
+            rows = vlib.read_ndjson(trace)
+            snippet = ctx.tmp("violation.ndjson")
+            vlib.write_ndjson(snippet, cut_history(rows, mm[0][1]))
+            rp = ctx.save_replay("seed%d" % ctx.seed, snippet)
+            finish(violations=len(mm))
+            raise vlib.Violation(pid, rp, "%s: %s (trace line %d of %s; %d mismatches)" % (label, mm[0][2], mm[0][1], os.path.basename(trace), len(mm)))
+    pool.shutdown()
+    for d_ in drifts:
+        ctx.log("conformance drift (not a verdict): " + d_)
+    finish()
+
+
+# ------------------------------------------------------------------------------------------------ C18
+def run_c18(ctx):
+    pid, SPEC, quick, rng = "C18", "DeadLetter", ctx.quick, ctx.rng
+    exe = ctx.build("askreentr")
+    env = {"VERIF_SLOW": "3"}
+    port = 20000 + (os.getpid() * 7 + ctx.seed * 131) % 20000
+    pool = concurrent.futures.ThreadPoolExecutor(max_workers=3)
+    f_mc = pool.submit(ctx.tlc_must_hold, SPEC, "MC_Drops.cfg" if quick else "MC_Drops_t.cfg", module="MC_Drops", timeout=2400, workers=4,
+                       deadlock_check=False)
+    f_exh = pool.submit(ctx.tlc, SPEC, "Gen_Drops.cfg" if quick else "Gen_Drops_t.cfg", module="Gen_Drops", deadlock_check=False, timeout=2400,
+                        workers=2)
+    f_sim = pool.submit(ctx.tlc, SPEC, "Sim_Drops.cfg", module="Gen_Drops", simulate="num=%d" % (100 if quick else 1500), depth=20,
+                        deadlock_check=False, timeout=2400, workers=1)
+    # every named deviation of the model must break the design-level invariants (vacuity of the invariants)
+    f_def = {d: pool.submit(ctx.tlc, SPEC, "MC_Drops_%s.cfg" % d, module="MC_Drops", timeout=1200, workers=2, expect_fail=True, deadlock_check=False)
+             for d in ("SwallowFull", "DoubleUnhandled", "CountTwice")}
+
+    def stress():
+        trace = ctx.tmp("trace-dlstress.ndjson")
+        p = ctx.run([exe, "dl-stress", str(40 if quick else 600), str(ctx.seed), trace, str(port + 1)], timeout=3000, env=env)
+        rs = json.loads(p.stdout.strip().splitlines()[-1])
+        mm, nl = monitor(ctx, SPEC, "Mon_Drops", trace, "stress", pid)
+        return "stress (3-6 concurrent senders of all kinds, capacity 2-8)", trace, rs, mm, nl, None
+
+    futs = [pool.submit(stress)]
+    exh = vlib.parse_sim_behaviours(f_exh.result().out)
+    sim = vlib.parse_sim_behaviours(f_sim.result().out)
+    if len(exh) < 5000 or len(sim) < (300 if quick else 5000):
+        raise vlib.Infra("behaviour generation produced too little (%d exhaustive, %d random)" % (len(exh), len(sim)))
+    nontrivial = lambda b: any(o["op"] == "Finish" for o in b) and sum(1 for o in b if o["op"] in ("Tell", "RemoteTell")) >= 2
+    sel = vlib.sample(rng, exh, 1000 if quick else 20193)
+    behaviours = sel + sim
+
+    def replay():
+        bfile, trace = ctx.tmp("beh-dl.ndjson"), ctx.tmp("trace-dl.ndjson")
+        vlib.write_ndjson(bfile, behaviours)
+        p = ctx.run([exe, "dl-replay", bfile, trace, str(port)], timeout=3000, env=env)
+        rs = json.loads(p.stdout.strip().splitlines()[-1])
+        mm, nl = monitor(ctx, SPEC, "Mon_Drops", trace, "replay", pid)
+        drift = conformance(ctx, SPEC, "Trace_Drops.cfg", "Trace_Drops", trace, "replay")
+        return "replay (%d of %d histories of length %d + %d random walks)" % (len(sel), len(exh), len(exh[0]), len(sim)), trace, rs, mm, nl, drift
+
+    futs.append(pool.submit(replay))
+    f_mc.result()
+    for d, f in f_def.items():
+        if not f.result().violated:
+            raise vlib.Infra("Drops.tla with Defects={%s} violates nothing: the design-level invariants are vacuous" % d)
+
+    tot = collections.Counter()
+    drifts = []
+
+    def finish(violations=0):
+        st, tr = ctx.states()
+        cov = {"states": st, "transitions": tr, "traces_validated_against_impl": tot["hist"],
+               "samples": [[[o["op"], o["snd"], o["rcv"], o["unh"]] for o in b] for b in (behaviours[0], behaviours[len(sel) // 2], behaviours[-1])],
+               "evaluations": tot["hist"], "distinct_nontrivial": len({json.dumps(b) for b in behaviours if nontrivial(b)}),
+               "rule": "executions = sampled operation histories of length D over {Tell(S|N, handled|Unhandled), RemoteTell(T|missing), Batch(1|2), "
+                       "Finish, Stop, Query} (TLC BFS) + TLC random walks of depth 14 on a real actor system (capacity-2 non-blocking mailbox, "
+                       "handler held by the harness), each closed by releasing everything and a count query; plus free-running concurrent "
+                       "senders; non-trivial = a handler completion and >= 2 deliveries to the target",
+               "events_judged": tot["events"], "exhaustive_histories_generated": len(exh), "random_walks": len(sim),
+               "conformance_drift": drifts, "exhaustive": False}
+        ctx.evidence("model_checking", cov,
+                     ["remote sources are driven through verif-tag shims that call deliverRemoteTellMessage / enqueueCoalescedFailure with "
+                      "real wire messages (no network peer); messages are wrapperspb.Int64Value carrying the id",
+                      "messages still queued when an actor stops, the fan-out queue overflowing (> 256 failed batches waiting) and the "
+                      "dead letters of Ask time-outs are outside the four drop causes of the property",
+                      "dead letters are observed by one event-stream subscriber; accounting is done at quiescence"], violations=violations)
+
+    for fut in futs:
+        label, trace, rs, mm, nl, drift = fut.result()
+        tot["hist"] += rs["behaviours"]
+        tot["events"] += nl
+        if drift:
+            drifts.append(drift)
+        ctx.log("%s: %d executions, %d steps, %d events, %d mismatches" % (label, rs["behaviours"], rs["steps"], nl, len(mm)))
         if mm:
             rows = vlib.read_ndjson(trace)
             snippet = ctx.tmp("violation.ndjson")
